@@ -200,8 +200,10 @@ func TestVerifC03Conc(t *testing.T) {
 		strategies = allStrategies
 	}
 	i := 0
-	for _, st := range strategies {
-		for _, m := range [][]string{{"500"}, {"abort"}, {"refuse"}, {"500", "abort"}} {
+	// the two-request scenarios are by far the largest: enumerate them first so that the
+	// scenario-level sharding puts each on a shard of its own
+	for _, m := range [][]string{{"500", "abort"}, {"500"}, {"abort"}, {"refuse"}} {
+		for _, st := range strategies {
 			if vh.MyShard(i) {
 				vh.RunS(r, "TestVerifC03Conc", c03cScenario(c03cParams{st, m}, bound))
 			}
